@@ -79,6 +79,7 @@ func verifC06WrapperCheck(cfg verifC06Cfg, w *verifRefUnit, inner []*verifRefUni
 
 // magic-1 wrapper (CreateTime) around magic-1 inner messages (thorough: inner magic 0 too).
 func VerifC06_wrapperV1() {
+	verifTimestampLabel = verifTimestampLabelDefault
 	verifC06WrapperV1(false)
 	verifReached("c06-wrapper-v1")
 }
@@ -87,7 +88,9 @@ func VerifC06_wrapperV1() {
 // timestamp (KIP-32: the broker stamps only the wrapper and leaves the compressed inner
 // messages untouched; "the timestamp of the wrapper is used for all inner messages").
 func VerifC06_wrapperV1LogAppendTime() {
+	verifTimestampLabel = "inner messages of a magic-1 wrapper with timestamp type LogAppendTime take the wrapper's timestamp (KIP-32)"
 	verifC06WrapperV1(true)
+	verifTimestampLabel = verifTimestampLabelDefault
 	verifReached("c06-wrapper-v1-log-append-time")
 }
 
@@ -95,7 +98,7 @@ func verifC06WrapperV1(logAppendTime bool) {
 	cfg := verifC06Cfg{offset: verifNondetInt64("fetchOffset"), disableCRC: verifNondetBool("disableCRC"), topic: "t"}
 	n := 1 + verifChoose(2)
 	magics := [2]int{1, 1}
-	if verifThorough() {
+	if verifThorough() && !logAppendTime {
 		magics = [2]int{verifChoose(2), verifChoose(2)}
 	}
 	inner, plain := verifC06Inner(n, magics)
